@@ -73,7 +73,7 @@ int main(void)
 		else if (!strcmp(op, "VOL")) { ret = xmp_channel_vol(c, a[0], a[1]); printf("VOL %d %d", a[0], a[1]); }
 		else if (!strcmp(op, "SET")) { ret = xmp_set_player(c, a[0], a[1]); printf("SET %d %d", a[0], a[1]); }
 		else if (!strcmp(op, "GET")) { ret = xmp_get_player(c, a[0]); printf("GET %d", a[0]); }
-		else if (!strcmp(op, "INJ")) { struct xmp_event e; memset(&e, 0, sizeof e); xmp_inject_event(c, a[0], &e); isvoid = 1; printf("INJ %d", a[0]); }
+		else if (!strcmp(op, "INJ")) { struct xmp_event e; memset(&e, 0, sizeof e); e.fxt = 0x0c; e.fxp = 0x20; e.f2t = 0x5a; e.f2p = 0x5a;	/* harmless when accepted (set volume), visible if it lands anywhere else */ xmp_inject_event(c, a[0], &e); isvoid = 1; printf("INJ %d", a[0]); }
 		else if (!strcmp(op, "TF")) {
 			double x = 1.0; int cls;
 			sscanf(line, "%*s %lf", &x);
